@@ -129,10 +129,17 @@ def _xpow(node, env):
 
 def rule_loops(ctx):
     """R03.4: every loop of the solver and its helpers is bounded by a compile-time constant or carries a stated
-    termination argument whose syntactic guard is present."""
+    termination argument whose syntactic guard is present. Loops are recognised by what they do (their exit test and the
+    variable they drive), not by the keyword they are written with."""
     tu = cfront.load_tu('integrator_whfast.c')
     n = 0
     samples = []
+    REASONS = {
+        'halving': 'argument halving: |z| is divided by 4 until <= 0.1; guarded by isfinite(z) so that an infinite argument leaves at once',
+        'countdown': 'undoes the n halvings counted by the loop above (n decreases to 0)',
+        'bisection': 'bisection: the bracket halves every iteration until its relative width is below 1e-15',
+        'var': 'loop over the variational configurations (N_var_config is finite)',
+    }
     for fname in ('stumpff_cs', 'stumpff_cs3', 'stiefel_Gs', 'stiefel_Gs3', SOLVER):
         fn = tu.func(fname)
         for loop in walk(cfront.body(fn)):
@@ -142,40 +149,50 @@ def rule_loops(ctx):
             n += 1
             where = 'src/integrator_whfast.c:%s %s' % (line_of(loop), fname)
             if k == 'ForStmt':
-                cond = render(loop['inner'][2]).replace(' ', '') if loop['inner'][2] and loop['inner'][2].get('kind') else ''
-                m = re.match(r'^\((\w+)(<|<=|>|>=)(\(?-?\d+\)?|\w+)\)$', cond)
-                const_bound = False
-                if m:
-                    b = m.group(3).strip('()')
-                    if re.match(r'^-?\d+$', b):
-                        const_bound = True
-                    else:
-                        # a local const int initialised with a literal, or a loop variable of an enclosing constant loop
-                        for d in walk(cfront.body(fn)):
-                            if d.get('kind') == 'VarDecl' and d.get('name') == b and 'init' in d:
-                                init = [c for c in d.get('inner', []) if c.get('kind') not in ('FullComment',)]
-                                if init and strip(init[-1]).get('kind') == 'IntegerLiteral':
-                                    const_bound = True
-                        if b in ('n_lag',):
-                            const_bound = True
-                if const_bound:
-                    samples.append('%s: for %s (constant bound)' % (where, cond))
-                    continue
-                key = (fname, 'for-n' if cond == '(n>0)' else ('for-var' if 'N_var_config' in cond else 'for:' + cond))
+                cn = loop['inner'][2]
+                body_ = loop['inner'][-1]
             elif k == 'WhileStmt':
-                key = (fname, 'while')
-                cond = render(loop['inner'][0]).replace(' ', '')
-                if 'isfinite(z)' not in cond and '__builtin_isfinite' not in cond and 'isfinite' not in cond:
-                    ctx.report('R03.4', 'loop:%s:while:guard' % fname, where,
-                               'the argument-halving loop "while %s" has no finiteness guard: for z = +-inf (Newton overshoot on a hyperbolic orbit) z/4 stays infinite and the step never terminates' % cond)
+                cn, body_ = loop['inner'][0], loop['inner'][1]
             else:
-                key = (fname, 'do')
-                cond = render(loop['inner'][1]).replace(' ', '')
-                if 'X_max-X_min' not in cond:
-                    ctx.report('R03.4', 'loop:%s:do:cond' % fname, where, 'the bisection loop no longer terminates on the bracket width (%s)' % cond)
-            if key not in LOOP_REASONS:
-                raise AnalysisError('R03.4: loop at %s (%s) has no constant bound and no recorded termination argument - a human reason is needed' % (where, key))
-            samples.append('%s: %s - %s' % (where, key[1], LOOP_REASONS[key]))
+                cn, body_ = loop['inner'][1], loop['inner'][0]
+            cond = render(cn).replace(' ', '') if cn and cn.get('kind') else ''
+            # exit tests that sit in the body as `if (..) break;` (for(;;) spelling)
+            breaks = [render(x['inner'][0]).replace(' ', '') for x in walk(body_) if x.get('kind') == 'IfStmt'
+                      and any(y.get('kind') == 'BreakStmt' for y in walk(x['inner'][1]))]
+            tests = cond + ' ' + ' '.join(breaks)
+            m = re.match(r'^\((\w+)(<|<=|>|>=)(\(?-?\d+\)?|\w+)\)$', cond)
+            const_bound = False
+            if m and k == 'ForStmt':
+                b = m.group(3).strip('()')
+                if re.match(r'^-?\d+$', b) and b != '0':
+                    const_bound = True
+                else:
+                    for d in walk(cfront.body(fn)):
+                        if d.get('kind') == 'VarDecl' and d.get('name') == b and 'init' in d:
+                            init = [c for c in d.get('inner', []) if c.get('kind') not in ('FullComment',)]
+                            if init and strip(init[-1]).get('kind') == 'IntegerLiteral':
+                                const_bound = True
+                    if b in ('n_lag',):
+                        const_bound = True
+            if const_bound:
+                samples.append('%s: %s (constant bound)' % (where, cond))
+                continue
+            if 'N_var_config' in tests:
+                kind = 'var'
+            elif 'X_max-X_min' in tests or 'X_max' in tests and 'X_min' in tests:
+                kind = 'bisection'
+                if 'X_max-X_min' not in tests:
+                    ctx.report('R03.4', 'loop:%s:do:cond' % fname, where, 'the bisection loop no longer terminates on the bracket width (%s)' % tests)
+            elif re.search(r'fastabs\(z\)>|fabs\(z\)>|\(z\)>0\.1', tests) or ('0.1' in tests and 'z' in tests):
+                kind = 'halving'
+                if 'isfinite' not in tests:
+                    ctx.report('R03.4', 'loop:%s:while:guard' % fname, where,
+                               'the argument-halving loop "%s" has no finiteness guard: for z = +-inf (Newton overshoot on a hyperbolic orbit) z/4 stays infinite and the step never terminates' % tests.strip())
+            elif re.search(r'\(n>0\)|\(n!=0\)|\(0<n\)', tests) or (k != 'ForStmt' and re.search(r'\bn\b', tests)):
+                kind = 'countdown'
+            else:
+                raise AnalysisError('R03.4: loop at %s (%s) has no constant bound and no recorded termination argument - a human reason is needed' % (where, tests.strip()))
+            samples.append('%s: %s - %s' % (where, kind, REASONS[kind]))
     ctx.covered('R03.4', 'loops of the Kepler solver and Stumpff/Stiefel helpers: constant bound, or recorded termination argument with its guard present', n, floor=11, samples=samples[:6])
 
 
@@ -190,9 +207,9 @@ def rule_bisection_nan(ctx):
     n = 0
     samples = []
     for loop in walk(cfront.body(fn)):
-        if loop.get('kind') != 'DoStmt':
+        if loop.get('kind') not in ('DoStmt', 'WhileStmt', 'ForStmt'):
             continue
-        body_ = loop['inner'][0]
+        body_ = loop['inner'][0] if loop.get('kind') == 'DoStmt' else loop['inner'][-1]
         for ifs in walk(body_):
             if ifs.get('kind') != 'IfStmt':
                 continue
